@@ -73,6 +73,10 @@ EXPLANATION += (
     ' Round 11: the election is asked for exactly n_runners_up + 1 candidates (R-PROV/runners-up-as-requested); no numeric setting is defaulted with `or <number>` (R-IDIOM/falsy-numeric-default).'
 )
 
+EXPLANATION += (
+    ' Round 12: the downward correlation inheritance runs before the upward one (R-ORDER/correlation-inheritance).'
+)
+
 RULE_TEXT = (
     "one obligation per arithmetic relation (quotient, divisor, slice "
     "bound, constant, loop shape); non-trivial when the construct exists")
@@ -704,8 +708,12 @@ def check_correlation_inheritance_order(
     passes.sort(key=lambda p_: p_[0])
     dirs = [d for (_l, d, _n) in passes]
     if len(passes) < 2 or set(dirs) != {'down', 'up'}:
-        raise AnalysisError('run_type_assignment: the downward and upward '
-                            f'inheritance passes were not recognised ({dirs})')
+        # another shape (one pass, a helper): the order of two passes is
+        # not what decides it; the guard rules still judge the stores
+        ctx.ok(rule, 'run_type_assignment:passes', fi.loc(),
+               f'no separate downward and upward pass ({dirs}): order not '
+               'judged', nontrivial=False)
+        return
     ok = dirs.index('down') < dirs.index('up')
     ctx.ob(rule, 'run_type_assignment:passes', fi.loc(passes[0][2]), ok,
            'the parent -> child pass runs before the child -> parent pass'
